@@ -14,7 +14,7 @@ CONSTANTS K,        \* number of header lines drawn from the pool (besides an op
 
 H(n, v)            == GenHdrLine(n, WS0, WS1, v, WS0, CRLF)
 \* the pool is indexed lazily (TLC would otherwise rebuild all lines for every message)
-PoolSize == 51
+PoolSize == 53
 PoolLine(i) ==
   CASE i = 1 -> H(N_From, V_from1)
     [] i = 2 -> GenHdrLine(N_f, WS0, WS0, V_from3, WS0, LFONLY)
@@ -66,7 +66,10 @@ PoolLine(i) ==
     [] i = 48 -> GenHdrLine(N_Contact, WS0, WS1, V_contact3, WS2, CRLF)
     [] i = 49 -> GenHdrLine(N_m, WS0, WS0, V_contact3, WS1, LFONLY)
     [] i = 50 -> GenHdrLine(N_PAI, WS0, WS1, V_pai1, WS2, CRLF)
-    [] i = 51 -> H(N_L, V_x1)
+    \* a list item whose last parameter has a value, white space before the comma
+    [] i = 51 -> H(N_Contact, V_contact7)
+    [] i = 52 -> H(N_PAI, V_pai4)
+    [] i = 53 -> H(N_L, V_x1)
 \* NOTE: the last line "L: bar" is a Content-Length header by name with a non-numeric value: NOT well formed,
 \* it is excluded from the well-formed pool below and only used by near-miss explorations.
 NPool == PoolSize - 1
